@@ -187,6 +187,59 @@ pub fn pfx_handler(a: &[&str]) -> String {
     pfx_dispatch(a[0], a[1]).unwrap_or_else(|| "?bad-type".into())
 }
 
+
+/// AIT <elem> <hex> [pos]: Decoder::array_iter::<T>() (the context-free iterator; the built-in Vec impl goes through
+/// array_iter_with) collected until the first error — printed exactly as `DT seq(<elem>)`; O=: it agrees with Vec::<T>::decode.
+fn ait<T>(inp: &[u8], pos: usize) -> String
+where T: Canon + Encode<()> + for<'b> Decode<'b, ()>
+{
+    let mut d = Decoder::new(inp);
+    d.set_position(pos);
+    let r: Result<Vec<T>, minicbor::decode::Error> = match d.array_iter::<T>() { Ok(it) => it.collect(), Err(e) => Err(e) };
+    let p = d.position();
+    let mut d2 = Decoder::new(inp);
+    d2.set_position(pos);
+    let r2: Result<Vec<T>, _> = d2.decode();
+    let same = match (&r, &r2) { (Ok(a), Ok(b)) => a.show() == b.show(), (Err(a), Err(b)) => classify(a) == classify(b), _ => false } && p == d2.position();
+    let re = r.as_ref().ok().map(|x| minicbor::to_vec(x).map(|b| hex_or_dash(&b)).unwrap_or_else(|_| "refused".into()));
+    let mut out = show_res(r, p, |x| x.show());
+    if let Some(h) = re { out.push_str(";re="); out.push_str(&h) }
+    with_oracle(out, if same { Ok(()) } else { Err("array_iter and the Vec impl (array_iter_with) disagree".into()) })
+}
+
+/// MIT <key> <value> <hex> [pos]: Decoder::map_iter::<K, V>() collected into a BTreeMap — printed as `DT bmap(<key>,<value>)`.
+fn mit<K, V>(inp: &[u8], pos: usize) -> String
+where K: Canon + Ord + Encode<()> + for<'b> Decode<'b, ()>, V: Canon + Encode<()> + for<'b> Decode<'b, ()>
+{
+    let mut d = Decoder::new(inp);
+    d.set_position(pos);
+    let r: Result<BTreeMap<K, V>, minicbor::decode::Error> = match d.map_iter::<K, V>() { Ok(it) => it.collect(), Err(e) => Err(e) };
+    let p = d.position();
+    let mut d2 = Decoder::new(inp);
+    d2.set_position(pos);
+    let r2: Result<BTreeMap<K, V>, _> = d2.decode();
+    let same = match (&r, &r2) { (Ok(a), Ok(b)) => a.show() == b.show(), (Err(a), Err(b)) => classify(a) == classify(b), _ => false } && p == d2.position();
+    with_oracle(show_res(r, p, |x| x.show()), if same { Ok(()) } else { Err("map_iter and the BTreeMap impl (map_iter_with) disagree".into()) })
+}
+
+pub fn ait_handler(a: &[&str]) -> String {
+    let inp = unhex(a[1]);
+    let pos: usize = a.get(2).map(|p| p.parse().unwrap()).unwrap_or(0);
+    match a[0] {
+        "u8" => ait::<u8>(&inp, pos), "opt(u16)" => ait::<Option<u16>>(&inp, pos), "seq(i8)" => ait::<Vec<i8>>(&inp, pos),
+        "string" => ait::<String>(&inp, pos), "tup(u8,string)" => ait::<(u8, String)>(&inp, pos), "result(u8,string)" => ait::<Result<u8, String>>(&inp, pos),
+        _ => "?bad-type".into()
+    }
+}
+pub fn mit_handler(a: &[&str]) -> String {
+    let inp = unhex(a[2]);
+    let pos: usize = a.get(3).map(|p| p.parse().unwrap()).unwrap_or(0);
+    match (a[0], a[1]) {
+        ("u8", "string") => mit::<u8, String>(&inp, pos), ("string", "seq(u8)") => mit::<String, Vec<u8>>(&inp, pos),
+        _ => "?bad-type".into()
+    }
+}
+
 pub fn dt_handler(a: &[&str]) -> String {
     let inp = unhex(a[1]);
     let pos: usize = a.iter().skip(2).find(|t| !t.starts_with('=')).map(|p| p.parse().unwrap()).unwrap_or(0);
